@@ -172,10 +172,50 @@ def all_adapter_parts(ck, tier, rng):
     epics_registry_part(ck, tier, rng)
 
 
+def topics_part(ck, tier, rng):
+    """components never share a topic: searched on the real topic functions (the theorem C10_topics_disjoint rests on
+    the constants the translator extracts; when it no longer recognises the source this finds the failing names)"""
+    from props import c15
+    hit = c15.topic_collision()
+    if hit:
+        ck.report("topics-of-distinct-components-collide", f"topic naming: {hit[2]} for component names {hit[0]!r} and {hit[1]!r}",
+                  dict(property="C15", kind="topic", names=[hit[0], hit[1]], what=hit[2]))
+
+
+def all_parts(ck, tier, rng):
+    topics_part(ck, tier, rng)
+    return all_adapter_parts(ck, tier, rng)
+
+
 def main(tier, seed):
     return sprops.main_pairs(PID, tier, seed, {91}, "Props.C10",
                              ["Model/Sim.v", "Oracle/SimCheck.v", "Oracle/SimOracle.v", "Model/Topics.v", "Proofs/TopicsP.v", "Proofs/SimP.v", "Proofs/FlattenP.v", "Proofs/NonInterfP.v", "Props/C10.v"],
-                             "non-interference of unconnected parts", "extend", extra_part=all_adapter_parts)
+                             "non-interference of unconnected parts", "extend", extra_part=all_parts)
 
 
-replay = sprops.replay_pair
+class _Collect:
+    """stands in for a Check when a recorded adapter-level violation is replayed"""
+    def __init__(self):
+        self.hits, self.coverage, self.evaluations, self.nontrivial = [], {}, 0, set()
+
+    def report(self, reason, what, replay, no_input=False):
+        self.hits.append((reason, what))
+
+    def count(self, key, nontrivial):
+        pass
+
+    def sample(self, x):
+        pass
+
+
+def replay(rp):
+    if rp.get("kind") == "topic":
+        from props import c15
+        return c15.replay(rp)
+    if rp.get("kind") in ("adapters", "epics", "epics_registry"):
+        ck = _Collect()
+        all_adapter_parts(ck, rp.get("tier", "quick"), random.Random(rp.get("seed", 0)))
+        for reason, what in ck.hits:
+            print(reason, "--", what)
+        return 1 if any(r == rp.get("reason") for r, _ in ck.hits) else 0
+    return sprops.replay_pair(rp)
